@@ -92,7 +92,7 @@ def check(run):
     thorough = run.tier == "thorough"
     r = gen.rng_for(run.seed, "c11")
     units = []
-    want = 700 if thorough else 130
+    want = 2000 if thorough else 300
     i = 0
     while len(units) < want:
         i += 1
@@ -115,7 +115,7 @@ def check(run):
             continue
         units.append(shards.Unit("u_" + s.name.lower(), glue_default(s), meta={"enum_src": s.render()}, sig="default," + s.signature(), head=strgen.CAPTURE_HEAD))
     tunits = []
-    for j in range(500 if thorough else 120):
+    for j in range(2000 if thorough else 360):
         body, src = build_transparent(r, "T%d" % j, j % 3)
         tunits.append(shards.Unit("u_t%d" % j, body, meta={"enum_src": src}, sig="transparent,level=%d" % (j % 3), head=(strgen.CAPTURE_HEAD, INNER_HEAD)))
     run.rule = RULE
